@@ -65,8 +65,41 @@ type AssertionSpec struct {
 	SessionIndexes []string `json:"session_indexes"`
 }
 
+// Conf holds the public configuration fields of Options, CookieSessionProvider and
+// the JWT codecs.  The zero value is what samlsp.New sets up by itself.  Fields the
+// property's clauses do not mention are varied and must not change any verdict;
+// SigAlg / Aud / Iss ARE "this SP's session codec": expectations follow them.
+type Conf struct {
+	SigAlg string `json:"sig_alg,omitempty"` // JWTSessionCodec.SigningMethod (also given to the tracking codec); "" = default for the key
+	Aud    string `json:"aud,omitempty"`     // JWTSessionCodec.Audience (and tracking codec); "" = root URL
+	Iss    string `json:"iss,omitempty"`     // JWTSessionCodec.Issuer (and tracking codec); "" = root URL
+
+	CookieMaxAgeMs int64 `json:"cookie_max_age_ms,omitempty"` // CookieSessionProvider.MaxAge when it differs from the codec's (browser side)
+
+	EntityID       string `json:"entity_id,omitempty"`
+	SameSite       int    `json:"same_site,omitempty"`
+	ForceAuthn     bool   `json:"force_authn,omitempty"`
+	Artifact       bool   `json:"artifact,omitempty"`
+	AllowIDPInit   bool   `json:"allow_idp_initiated,omitempty"`
+	SignReq        bool   `json:"sign_request,omitempty"`
+	LogoutRedirect bool   `json:"logout_redirect,omitempty"`
+	DefaultURI     string `json:"default_uri,omitempty"`
+	Domain         string `json:"domain,omitempty"`        // CookieSessionProvider.Domain
+	Path           string `json:"path,omitempty"`          // CookieSessionProvider.Path
+	HTTPOnlyOff    bool   `json:"http_only_off,omitempty"` // CookieSessionProvider.HTTPOnly = false
+	SecureFlip     bool   `json:"secure_flip,omitempty"`   // CookieSessionProvider.Secure negated
+
+	// requests served by the SAME Middleware / handler value before the judged one
+	// (other-legit | garbage | tracking | nocookie), and whether another user's valid
+	// token is presented afterwards: verdicts must not depend on earlier calls.
+	Warm  []string `json:"warm,omitempty"`
+	After bool     `json:"after,omitempty"`
+}
+
 // Case is one presentation of one (possibly mutated) token.
 type Case struct {
+	Conf Conf `json:"conf"`
+
 	Key        string `json:"key"`         // sp | spec
 	URL        string `json:"url"`         // root URL of the deployment
 	CookieName string `json:"cookie_name"` // "" = library default
@@ -114,7 +147,11 @@ type mutInfo struct {
 	args []string // admissible MutArg values ("" when none)
 }
 
-var nearKinds = []string{"other", "trailing-slash", "query", "fragment", "suffix-x", "userinfo", "prefix", "suffix", "upper", "scheme-case", "empty", "absent"}
+// near misses of the configured audience / issuer; the last five are OTHER identifiers
+// of the same deployment (the issuer where the audience belongs and vice versa, the
+// root URL, the entity ID, the ACS and metadata URLs).
+var nearKinds = []string{"other", "trailing-slash", "query", "fragment", "suffix-x", "userinfo", "prefix", "suffix", "upper", "scheme-case", "empty", "absent",
+	"own-other", "root-url", "entity-id", "acs-url", "metadata-url"}
 
 var catalogue = map[string]mutInfo{
 	"none":        {kind: "legit"},
@@ -130,7 +167,7 @@ var catalogue = map[string]mutInfo{
 	"hmac": {kind: "refuse", args: []string{
 		"HS256:pkix-pem", "HS256:pkix-der", "HS256:cert-pem", "HS256:cert-der", "HS256:raw", "HS256:pkcs1-pem", "HS256:pkcs1-der",
 		"HS384:pkix-pem", "HS384:pkix-der", "HS384:raw", "HS512:pkix-pem", "HS512:pkix-der", "HS512:cert-pem", "HS512:raw", "HS256:empty"}},
-	"swap-rsa":     {kind: "refuse", keys: "rsa", args: []string{"RS384", "RS512", "PS256", "PS384", "PS512"}},
+	"swap-rsa":     {kind: "refuse", keys: "rsa", args: []string{"RS256", "RS384", "RS512", "PS256", "PS384", "PS512"}},
 	"swap-ec":      {kind: "refuse", keys: "ec", args: []string{"ES384", "ES512"}},
 	"alg-foreign":  {kind: "refuse", args: []string{"other-family"}},
 	"alg-unknown":  {kind: "refuse", args: []string{"XS256", "", "rs256", "RS256 ", "RS25", "RS2566", "es256", "HS256"}},
@@ -143,6 +180,8 @@ var catalogue = map[string]mutInfo{
 	"claim-marker": {kind: "refuse", args: []string{"false", "absent"}},
 	"claim-exp":    {kind: "refuse", args: []string{"past"}},
 	"claim-nbf":    {kind: "refuse", args: []string{"future"}},
+	// nbf, iat and exp all DIFFERENT: the clock is after iat but before nbf, or after exp
+	"claim-window": {kind: "refuse", args: []string{"before-nbf", "before-nbf-no-iat", "after-exp"}},
 	"extra-seg":    {kind: "refuse", args: []string{"append", "prepend", "double", "dot", "middle"}},
 	"struct":       {kind: "refuse", args: []string{"empty", "two-seg", "one-seg", "dots", "garbage"}},
 	"trunc":        {kind: "refuse"},
@@ -152,6 +191,7 @@ var catalogue = map[string]mutInfo{
 	"open-marker":     {kind: "open", args: []string{"\"true\"", "1", "null"}},
 	"open-exp":        {kind: "open", args: []string{"absent", "extended", "float", "string"}},
 	"open-iat-future": {kind: "open"},
+	"open-window":     {kind: "open", args: []string{"inside"}}, // iat < nbf < now < exp, re-signed: only the key holder can make it
 }
 
 var mutNames = func() []string {
@@ -166,7 +206,7 @@ var mutNames = func() []string {
 // weighted list for the random generator: the classes whose ONLY barrier is one
 // specific check in the codec are drawn more often.
 var mutWeighted = func() []string {
-	w := map[string]int{"swap-rsa": 6, "swap-ec": 6, "claim-marker": 4, "claim-aud": 3, "claim-iss": 3, "other-url": 4, "other-key": 3, "claim-exp": 2, "claim-nbf": 2, "hmac": 2, "alg-none": 2}
+	w := map[string]int{"claim-window": 3, "swap-rsa": 6, "swap-ec": 6, "claim-marker": 4, "claim-aud": 3, "claim-iss": 3, "other-url": 4, "other-key": 3, "claim-exp": 2, "claim-nbf": 2, "hmac": 2, "alg-none": 2}
 	var out []string
 	for _, k := range mutNames {
 		n := w[k]
@@ -226,6 +266,39 @@ func genAssertion(t *rapid.T) AssertionSpec {
 	return a
 }
 
+var rsaAlgs = []string{"RS256", "RS384", "RS512", "PS256", "PS384", "PS512"}
+
+func genConf(t *rapid.T, key string) Conf {
+	var f Conf
+	if rapid.IntRange(0, 2).Draw(t, "conf-codec") == 0 {
+		if keyKind(key) == "rsa" {
+			f.SigAlg = rapid.SampledFrom(append([]string{""}, rsaAlgs...)).Draw(t, "sigalg")
+		}
+		f.Aud = rapid.SampledFrom([]string{"", "", "urn:example:audience", "https://sp.example.com/saml/metadata"}).Draw(t, "confaud")
+		f.Iss = rapid.SampledFrom([]string{"", "", "urn:example:issuer", "sp"}).Draw(t, "confiss")
+		f.CookieMaxAgeMs = rapid.SampledFrom([]int64{0, 0, 4_000, 7_200_000}).Draw(t, "cookiemaxage")
+	}
+	if rapid.IntRange(0, 1).Draw(t, "conf-unmentioned") == 0 {
+		f.EntityID = rapid.SampledFrom([]string{"", "urn:example:sp", "https://sp.example.com/entity"}).Draw(t, "entityid")
+		f.SameSite = rapid.IntRange(0, 4).Draw(t, "samesite")
+		f.ForceAuthn = rapid.Bool().Draw(t, "forceauthn")
+		f.Artifact = rapid.Bool().Draw(t, "artifact")
+		f.AllowIDPInit = rapid.Bool().Draw(t, "allowidp")
+		f.SignReq = rapid.Bool().Draw(t, "signreq")
+		f.LogoutRedirect = rapid.Bool().Draw(t, "logoutredirect")
+		f.DefaultURI = rapid.SampledFrom([]string{"", "/home", "https://portal.example.net/"}).Draw(t, "defaulturi")
+		f.Domain = rapid.SampledFrom([]string{"", "", "example.com", "other.example.net"}).Draw(t, "domain")
+		f.Path = rapid.SampledFrom([]string{"", "", "/app", "/protected/"}).Draw(t, "path")
+		f.HTTPOnlyOff = rapid.Bool().Draw(t, "httponlyoff")
+		f.SecureFlip = rapid.Bool().Draw(t, "secureflip")
+	}
+	if rapid.IntRange(0, 2).Draw(t, "conf-warm") == 0 {
+		f.Warm = rapid.SliceOfN(rapid.SampledFrom([]string{"other-legit", "other-legit", "garbage", "tracking", "nocookie"}), 1, 4).Draw(t, "warm")
+		f.After = rapid.Bool().Draw(t, "after")
+	}
+	return f
+}
+
 var clockClasses = []string{"before-far", "before-2s", "iat-boundary", "inside-early", "inside-mid", "inside-late", "exp-boundary", "after-2s", "after-far"}
 
 func genClock(t *rapid.T, maxAgeMs int64, cls string) int64 {
@@ -262,6 +335,7 @@ func gen(t *rapid.T) Case {
 	c.MintSec = rapid.Int64Range(0, 100_000_000).Draw(t, "mintsec")
 	c.MintMs = rapid.SampledFrom([]int64{0, 0, 1, 250, 500, 700, 999}).Draw(t, "mintms")
 	c.Assertion = genAssertion(t)
+	c.Conf = genConf(t, c.Key)
 
 	// which token, which fault
 	switch rapid.IntRange(0, 9).Draw(t, "plan") {
@@ -424,32 +498,72 @@ var idpMeta = func() *saml.EntityDescriptor {
 }()
 
 type deployment struct {
-	m    *samlsp.Middleware
-	name string // effective session cookie name
-	aud  string
+	m      *samlsp.Middleware
+	name   string // effective session cookie name
+	aud    string // the CONFIGURED audience, issuer and algorithm
+	iss    string
+	alg    string
+	root   string
+	entity string
 }
 
-func deploy(rootURL string, key *fix.KeyPair, cookieName string, maxAge time.Duration) deployment {
+func deploy(rootURL string, key *fix.KeyPair, cookieName string, maxAge time.Duration, f Conf) deployment {
 	u, err := url.Parse(rootURL)
 	if err != nil {
 		panic(err)
 	}
-	opts := samlsp.Options{URL: *u, Key: key.Key, Certificate: key.Cert, IDPMetadata: idpMeta, CookieName: cookieName}
+	opts := samlsp.Options{URL: *u, Key: key.Key, Certificate: key.Cert, IDPMetadata: idpMeta, CookieName: cookieName,
+		EntityID: f.EntityID, CookieSameSite: http.SameSite(f.SameSite), ForceAuthn: f.ForceAuthn, UseArtifactResponse: f.Artifact,
+		AllowIDPInitiated: f.AllowIDPInit, SignRequest: f.SignReq, DefaultRedirectURI: f.DefaultURI}
+	if f.LogoutRedirect {
+		opts.LogoutBindings = []string{saml.HTTPRedirectBinding}
+	}
 	m, err := samlsp.New(opts)
 	if err != nil {
 		panic(err)
 	}
+	d := deployment{m: m, name: cookieName, aud: u.String(), iss: u.String(), alg: nativeAlg(key.Key), root: u.String(), entity: f.EntityID}
+	if d.name == "" {
+		d.name = "token"
+	}
+	if d.entity == "" {
+		d.entity = m.ServiceProvider.MetadataURL.String()
+	}
 	sess := samlsp.DefaultSessionProvider(opts)
 	codec := samlsp.DefaultSessionCodec(opts)
+	tracker := samlsp.DefaultRequestTracker(opts, &m.ServiceProvider)
+	tcodec := samlsp.DefaultTrackedRequestCodec(opts)
 	codec.MaxAge = maxAge
-	sess.Codec = codec
 	sess.MaxAge = maxAge
-	m.Session = sess
-	name := cookieName
-	if name == "" {
-		name = "token"
+	if f.CookieMaxAgeMs > 0 {
+		sess.MaxAge = time.Duration(f.CookieMaxAgeMs) * time.Millisecond
 	}
-	return deployment{m: m, name: name, aud: u.String()}
+	if f.SigAlg != "" {
+		d.alg = f.SigAlg
+		codec.SigningMethod = jwt.GetSigningMethod(f.SigAlg)
+		tcodec.SigningMethod = codec.SigningMethod
+	}
+	if f.Aud != "" {
+		d.aud = f.Aud
+		codec.Audience, tcodec.Audience = f.Aud, f.Aud
+	}
+	if f.Iss != "" {
+		d.iss = f.Iss
+		codec.Issuer, tcodec.Issuer = f.Iss, f.Iss
+	}
+	if f.Domain != "" {
+		sess.Domain = f.Domain
+	}
+	sess.Path = f.Path
+	sess.HTTPOnly = !f.HTTPOnlyOff
+	if f.SecureFlip {
+		sess.Secure = !sess.Secure
+	}
+	sess.Codec = codec
+	tracker.Codec = tcodec
+	m.Session = sess
+	m.RequestTracker = tracker
+	return d
 }
 
 func (d deployment) mintSession(a *saml.Assertion) (string, error) {
@@ -679,6 +793,18 @@ func check(c Case) (res pbt.Result) {
 	if inf.keys != "" && inf.keys != keyKind(c.Key) {
 		return pbt.Result{Skip: true}
 	}
+	if f := c.Conf; f.SigAlg != "" {
+		okAlg := false
+		for _, a := range rsaAlgs {
+			okAlg = okAlg || a == f.SigAlg
+		}
+		if !okAlg || keyKind(c.Key) != "rsa" {
+			return pbt.Result{Skip: true}
+		}
+	}
+	if c.Conf.CookieMaxAgeMs != 0 && c.Conf.CookieMaxAgeMs < 4_000 || c.Conf.SameSite < 0 || c.Conf.SameSite > 4 || len(c.Conf.Warm) > 8 {
+		return pbt.Result{Skip: true}
+	}
 	if c.Base == "tracking" && c.Mut == "open-marker" {
 		return pbt.Result{Skip: true} // would be the only way to give a tracking token a session marker
 	}
@@ -690,7 +816,7 @@ func check(c Case) (res pbt.Result) {
 	// ---- mint
 	fix.SetNow(t0)
 	jwt.MarshalSingleStringAsArray = c.ArrayAud
-	d := deploy(c.URL, key, c.CookieName, maxAge)
+	d := deploy(c.URL, key, c.CookieName, maxAge, c.Conf)
 	assertion := buildAssertion(c.Assertion)
 	var tok string
 	var err error
@@ -713,7 +839,7 @@ func check(c Case) (res pbt.Result) {
 		res.Err = "minted claims do not decode: " + err.Error()
 		return res
 	}
-	alg := nativeAlg(key.Key)
+	alg := d.alg // the CONFIGURED algorithm
 	presentName := d.name
 	resign := func(algName string, hdr string, cm map[string]any, k crypto.Signer) string {
 		seg := encodeJSON(cm)
@@ -791,6 +917,9 @@ func check(c Case) (res pbt.Result) {
 		mac.Write([]byte(hdr + "." + cl))
 		tok = hdr + "." + cl + "." + b64.EncodeToString(mac.Sum(nil))
 	case "swap-rsa", "swap-ec":
+		if c.MutArg == alg {
+			return pbt.Result{Skip: true}
+		}
 		hdr := header(c.MutArg, nil)
 		s, err := signWith(c.MutArg, key.Key, hdr+"."+cl)
 		if err != nil {
@@ -828,7 +957,7 @@ func check(c Case) (res pbt.Result) {
 			okName = "idpec"
 		}
 		ok2 := fix.Get(okName)
-		d2 := deploy(c.URL, ok2, c.CookieName, maxAge)
+		d2 := deploy(c.URL, ok2, c.CookieName, maxAge, c.Conf)
 		t2, err := d2.mintSession(assertion)
 		if err != nil {
 			res.Err = "minting failed: " + err.Error()
@@ -850,10 +979,10 @@ func check(c Case) (res pbt.Result) {
 		}
 	case "other-url":
 		r2 := otherRoot(c.MutArg, c.URL)
-		if u2, err := url.Parse(r2); err != nil || u2.String() == d.aud {
-			return pbt.Result{Skip: true}
+		if u2, err := url.Parse(r2); err != nil || u2.String() == d.root || (c.Conf.Aud != "" && c.Conf.Iss != "") {
+			return pbt.Result{Skip: true} // with audience AND issuer configured explicitly the URL no longer tells deployments apart
 		}
-		d2 := deploy(r2, key, c.CookieName, maxAge)
+		d2 := deploy(r2, key, c.CookieName, maxAge, c.Conf)
 		t2, err := d2.mintSession(assertion)
 		if err != nil {
 			res.Err = "minting failed: " + err.Error()
@@ -863,11 +992,27 @@ func check(c Case) (res pbt.Result) {
 	case "claim-aud", "claim-iss":
 		name := strings.TrimPrefix(c.Mut, "claim-")
 		cm := cloneMap(claims)
+		right, otherOwn := d.aud, d.iss
+		if name == "iss" {
+			right, otherOwn = d.iss, d.aud
+		}
 		if c.MutArg == "array-wrong" {
 			cm[name] = []string{"https://other.example.net/"}
 		} else {
-			nv, keep := nearMiss(c.MutArg, d.aud)
-			if keep && nv == d.aud {
+			nv, keep := nearMiss(c.MutArg, right)
+			switch c.MutArg { // another identifier of the SAME deployment
+			case "own-other":
+				nv, keep = otherOwn, true
+			case "root-url":
+				nv, keep = d.root, true
+			case "entity-id":
+				nv, keep = d.entity, true
+			case "acs-url":
+				nv, keep = d.m.ServiceProvider.AcsURL.String(), true
+			case "metadata-url":
+				nv, keep = d.m.ServiceProvider.MetadataURL.String(), true
+			}
+			if keep && nv == right {
 				return pbt.Result{Skip: true}
 			}
 			if keep {
@@ -900,6 +1045,24 @@ func check(c Case) (res pbt.Result) {
 		cm["nbf"] = json.Number(fmt.Sprint(n))
 		cm["iat"] = json.Number(fmt.Sprint(n))
 		cm["exp"] = json.Number(fmt.Sprint(n + 3600))
+		tok = resign(alg, header(alg, nil), cm, key.Key)
+	case "claim-window", "open-window":
+		cm := cloneMap(claims)
+		p := present.Unix()
+		set := func(iat, nbf, exp int64) {
+			cm["iat"], cm["nbf"], cm["exp"] = json.Number(fmt.Sprint(iat)), json.Number(fmt.Sprint(nbf)), json.Number(fmt.Sprint(exp))
+		}
+		switch c.MutArg {
+		case "before-nbf":
+			set(p-100, p+50, p+500)
+		case "before-nbf-no-iat":
+			set(p-100, p+50, p+500)
+			delete(cm, "iat")
+		case "after-exp":
+			set(p-500, p-400, p-50)
+		default: // inside
+			set(p-100, p-50, p+50)
+		}
 		tok = resign(alg, header(alg, nil), cm, key.Key)
 	case "extra-seg":
 		switch c.MutArg {
@@ -966,20 +1129,80 @@ func check(c Case) (res pbt.Result) {
 	}
 
 	// ---- clock: a legitimate token authenticates strictly inside (iat, exp) only
-	inside := c.OffMs > 1_000 && c.OffMs < c.MaxAgeMs-1_000
+	// (a token is expired after the CODEC's lifetime; when the cookie's own Max-Age is
+	// shorter, the span between the two is left open: the browser should have dropped it)
+	admitUntil := c.MaxAgeMs
+	if m := c.Conf.CookieMaxAgeMs; m > 0 && m < admitUntil {
+		admitUntil = m
+	}
+	inside := c.OffMs > 1_000 && c.OffMs < admitUntil-1_000
 	outside := c.OffMs < -1_000 || c.OffMs > c.MaxAgeMs+1_000
 	switch {
 	case v == mustAdmit && outside:
 		v = mustRefuse
 	case v == mustAdmit && !inside:
 		v = dontCare
-	case v == dontCare && outside && c.Mut != "open-exp" && c.Mut != "open-iat-future":
+	case v == dontCare && outside && c.Mut != "open-exp" && c.Mut != "open-iat-future" && c.Mut != "open-window":
 		v = mustRefuse
 	}
 
-	// ---- present
+	// ---- present, on ONE long-lived handler value: warm-up requests first
+	dr := newDriver(d, c)
+	warmSpec := AssertionSpec{Subject: "nameid", NameID: "warm-user", Statements: [][]Attr{{{Name: "groups", Values: []string{"admin", "root"}}}}, SessionIndexes: []string{"warm-idx"}}
+	if c.Gate == "attr" {
+		warmSpec.Statements = append(warmSpec.Statements, []Attr{{Name: c.GateName, Values: []string{c.GateValue}}})
+	}
+	var warmTok, warmTrack string
+	if len(c.Conf.Warm) > 0 || c.Conf.After {
+		fix.SetNow(present.Add(-2 * time.Second))
+		var e1, e2 error
+		warmTok, e1 = d.mintSession(buildAssertion(warmSpec))
+		warmTrack, e2 = d.mintTracking()
+		if e1 != nil || e2 != nil {
+			res.Err = fmt.Sprintf("minting failed: %v %v", e1, e2)
+			return res
+		}
+	}
 	fix.SetNow(present)
-	ob := drive(d, c, presentName, tok)
+	presentWarm := func(when string) string {
+		o := dr.present(d.name, warmTok, warmSpec)
+		if o.panicV != nil {
+			return fmt.Sprintf("middleware panicked on another user's valid token (%s): %v", when, o.panicV)
+		}
+		if !o.ran {
+			return fmt.Sprintf("another user's valid 2-second-old session token was not admitted %s the judged request (status %d)", when, o.status)
+		}
+		if o.subject != "warm-user" {
+			return fmt.Sprintf("%s the judged request another user's valid token showed subject %q instead of its own", when, o.subject)
+		}
+		if df := diffAttrs(refAttributes(warmSpec), o.attrs); df != "" {
+			return fmt.Sprintf("%s the judged request another user's valid token showed foreign attributes: %s", when, df)
+		}
+		return ""
+	}
+	for _, wop := range c.Conf.Warm {
+		switch wop {
+		case "other-legit":
+			if msg := presentWarm("before"); msg != "" {
+				res.Err = msg
+				return res
+			}
+		case "garbage":
+			dr.present(d.name, "AAAA.BBBB.CCCC", AssertionSpec{})
+		case "tracking":
+			if o := dr.present(d.name, warmTrack, AssertionSpec{}); o.ran {
+				res.Err = "a tracking token presented as session cookie (warm-up) reached the application"
+				return res
+			}
+		default:
+			dr.present("unrelated", "x", AssertionSpec{})
+		}
+	}
+	ob := dr.present(presentName, tok, c.Assertion)
+	afterMsg := ""
+	if c.Conf.After {
+		afterMsg = presentWarm("after")
+	}
 
 	// ---- classes
 	res.Classes = []string{"mut:" + c.Mut, "base:" + c.Base, "clock:" + c.Clock, "key:" + c.Key, "expect:" + v.String()}
@@ -997,6 +1220,24 @@ func check(c Case) (res pbt.Result) {
 	}
 	if c.MaxAgeMs != 3_600_000 {
 		res.Classes = append(res.Classes, "lifetime:custom")
+	}
+	if c.Conf.SigAlg != "" {
+		res.Classes = append(res.Classes, "conf:alg="+c.Conf.SigAlg)
+	}
+	if c.Conf.Aud != "" || c.Conf.Iss != "" {
+		res.Classes = append(res.Classes, "conf:custom-aud-iss")
+	}
+	if c.Conf.CookieMaxAgeMs != 0 {
+		res.Classes = append(res.Classes, "conf:cookie-maxage!=codec")
+	}
+	if f := c.Conf; f.EntityID != "" || f.SameSite != 0 || f.ForceAuthn || f.Artifact || f.AllowIDPInit || f.SignReq || f.LogoutRedirect || f.DefaultURI != "" || f.Domain != "" || f.Path != "" || f.HTTPOnlyOff || f.SecureFlip {
+		res.Classes = append(res.Classes, "conf:unmentioned-fields-varied")
+	}
+	if len(c.Conf.Warm) > 0 || c.Conf.After {
+		res.Classes = append(res.Classes, "sequence:warm-or-after")
+	}
+	if strings.HasPrefix(c.Mut, "claim-") && (c.MutArg == "own-other" || c.MutArg == "root-url" || c.MutArg == "entity-id" || c.MutArg == "acs-url" || c.MutArg == "metadata-url") {
+		res.Classes = append(res.Classes, "near:other-identifier-of-same-deployment")
 	}
 	if ob.ran {
 		res.Classes = append(res.Classes, "observed:admitted")
@@ -1037,6 +1278,10 @@ func check(c Case) (res pbt.Result) {
 	// ---- judge
 	if ob.panicV != nil {
 		res.Err = fmt.Sprintf("middleware panicked while handling mutation %s(%s): %v", c.Mut, c.MutArg, ob.panicV)
+		return res
+	}
+	if afterMsg != "" {
+		res.Err = afterMsg
 		return res
 	}
 	gateOpen := true
@@ -1160,9 +1405,20 @@ func diffAttrs(want, got map[string][]string) string {
 	return ""
 }
 
-// drive presents the token and reports what the sentinel application handler saw.
-func drive(d deployment, c Case, cookieName, tok string) (ob observed) {
+// driver is ONE handler value (RequireAccount [+ RequireAttribute] + sentinel) that
+// serves every request of a case: warm-ups, the judged request, the after-request.
+type driver struct {
+	d       deployment
+	c       Case
+	handler http.Handler
+	cur     *observed
+	spec    AssertionSpec
+}
+
+func newDriver(d deployment, c Case) *driver {
+	dr := &driver{d: d, c: c}
 	sentinel := http.HandlerFunc(func(w http.ResponseWriter, r *http.Request) {
+		ob := dr.cur
 		ob.ran = true
 		s := samlsp.SessionFromContext(r.Context())
 		if jc, ok := s.(samlsp.JWTSessionClaims); ok {
@@ -1175,7 +1431,7 @@ func drive(d deployment, c Case, cookieName, tok string) (ob observed) {
 				ob.attrs[k] = v
 			}
 			ob.first = map[string]string{}
-			for k := range refAttributes(c.Assertion) {
+			for k := range refAttributes(dr.spec) {
 				ob.first[k] = samlsp.AttributeFromContext(r.Context(), k)
 			}
 		}
@@ -1185,9 +1441,16 @@ func drive(d deployment, c Case, cookieName, tok string) (ob observed) {
 	if c.Gate == "attr" {
 		app = samlsp.RequireAttribute(c.GateName, c.GateValue)(app)
 	}
-	handler := d.m.RequireAccount(app)
+	dr.handler = d.m.RequireAccount(app)
+	return dr
+}
+
+// present sends one request with the cookie and reports what the sentinel saw.
+func (dr *driver) present(cookieName, tok string, spec AssertionSpec) observed {
+	var ob observed
+	dr.cur, dr.spec = &ob, spec
 	req := httptest.NewRequest("GET", "/protected/page?x=1", nil)
-	u, _ := url.Parse(c.URL)
+	u, _ := url.Parse(dr.c.URL)
 	req.Host = u.Host
 	req.Header.Set("Cookie", cookieName+"="+tok)
 	rec := httptest.NewRecorder()
@@ -1197,7 +1460,7 @@ func drive(d deployment, c Case, cookieName, tok string) (ob observed) {
 				ob.panicV = e
 			}
 		}()
-		handler.ServeHTTP(rec, req)
+		dr.handler.ServeHTTP(rec, req)
 	}()
 	ob.status = rec.Code
 	return ob
@@ -1261,6 +1524,79 @@ func enumMutants(_ string, emit func(Case)) {
 					emit(c)
 				}
 			}
+			// ---- configured codec fields: the expectation follows the CONFIGURATION
+			if keyKind(key) == "rsa" {
+				for _, conf := range []string{"RS512", "PS256", "RS384"} {
+					c := base
+					c.Conf.SigAlg = conf
+					c.Base, c.Mut, c.Clock, c.OffMs = "session", "none", "inside-mid", off("inside-mid", base.MaxAgeMs)
+					emit(c)
+					c.Mut = "resign-same"
+					emit(c)
+					c.Base, c.Mut = "tracking", "none"
+					emit(c)
+					for _, a := range rsaAlgs { // incl. the library default RS256
+						c := base
+						c.Conf.SigAlg = conf
+						c.Base, c.Mut, c.MutArg, c.Clock, c.OffMs = "session", "swap-rsa", a, "inside-mid", off("inside-mid", base.MaxAgeMs)
+						emit(c)
+					}
+				}
+			}
+			for _, conf := range []Conf{{Aud: "urn:example:audience", Iss: "urn:example:issuer"}, {Aud: "urn:example:audience"}, {Iss: "sp"}, {EntityID: "urn:example:sp"}} {
+				c := base
+				c.Conf = conf
+				c.Base, c.Mut, c.Clock, c.OffMs = "session", "none", "inside-mid", off("inside-mid", base.MaxAgeMs)
+				emit(c)
+				c.Base = "tracking"
+				emit(c)
+				for _, mut := range []string{"claim-aud", "claim-iss"} {
+					for _, a := range catalogue[mut].args {
+						c := base
+						c.Conf = conf
+						c.Base, c.Mut, c.MutArg, c.Clock, c.OffMs = "session", mut, a, "inside-mid", off("inside-mid", base.MaxAgeMs)
+						emit(c)
+					}
+				}
+				for _, a := range catalogue["other-url"].args {
+					c := base
+					c.Conf = conf
+					c.Base, c.Mut, c.MutArg, c.Clock, c.OffMs = "session", "other-url", a, "inside-mid", off("inside-mid", base.MaxAgeMs)
+					emit(c)
+				}
+			}
+			// cookie Max-Age different from the codec's lifetime
+			for _, x := range []struct{ codec, cookie, off int64 }{{3_600_000, 4_000, 2_000}, {3_600_000, 4_000, 10_000}, {3_600_000, 4_000, 3_602_500}, {5_000, 7_200_000, 3_000}, {5_000, 7_200_000, 8_000}, {5_000, 7_200_000, 7_190_000}} {
+				c := base
+				c.Conf.CookieMaxAgeMs, c.MaxAgeMs, c.OffMs = x.cookie, x.codec, x.off
+				c.Base, c.Mut, c.Clock = "session", "none", "inside-mid"
+				emit(c)
+			}
+			// ---- one long-lived middleware: another user's valid session before and after
+			for _, cls := range clockClasses {
+				c := base
+				c.Conf.Warm, c.Conf.After = []string{"other-legit"}, true
+				c.Base, c.Mut, c.Clock, c.OffMs = "session", "none", cls, off(cls, base.MaxAgeMs)
+				emit(c)
+				c.Gate, c.GateName, c.GateValue = "attr", "groups", "nobody" // the warm user carries it, alice does not
+				emit(c)
+			}
+			for _, mut := range mutNames {
+				inf := catalogue[mut]
+				if inf.kind == "legit" || (inf.keys != "" && inf.keys != keyKind(key)) {
+					continue
+				}
+				c := base
+				c.Conf.Warm, c.Conf.After = []string{"other-legit", "garbage", "tracking", "other-legit"}, true
+				c.Base, c.Mut, c.Clock, c.OffMs = "session", mut, "inside-mid", off("inside-mid", base.MaxAgeMs)
+				if len(inf.args) > 0 {
+					c.MutArg = inf.args[0]
+					if c.MutArg == "RS256" {
+						c.MutArg = inf.args[1]
+					}
+				}
+				emit(c)
+			}
 			for _, mut := range mutNames {
 				inf := catalogue[mut]
 				if inf.kind == "legit" || (inf.keys != "" && inf.keys != keyKind(key)) {
@@ -1289,7 +1625,7 @@ func enumMutants(_ string, emit func(Case)) {
 
 var prop = &pbt.Prop[Case]{
 	ID: "C16",
-	Rule: "cases: one deployment (RSA or ECDSA SP key, root URL, custom cookie name, custom lifetime, aud-as-array switch) mints a session or tracking token through its codecs; " +
+	Rule: "cases: one deployment (RSA or ECDSA SP key, root URL, custom cookie name, custom lifetime, aud-as-array switch; configured signing method / audience / issuer of both codecs, cookie Max-Age different from the codec lifetime, and every other public Options / CookieSessionProvider field varied) mints a session or tracking token through its codecs; " +
 		"exactly one named mutation from the catalogue is applied (signature/claims/header edits, alg none/HMAC-with-public-key/family swap/unknown, other key, other URL, single-claim edits re-signed with the SP key, segment structure, wrong cookie name); " +
 		"the clock is moved to a class around iat/exp and the token is presented to RequireAccount (optionally RequireAttribute) before a sentinel handler. " +
 		"non-trivial: the token differs from a legitimate one in exactly one aspect (any mutation, or a tracking token), or the clock is within 2 s of iat/exp, or the assertion has a repeated or friendly-name-less attribute. " +
@@ -1304,6 +1640,10 @@ var prop = &pbt.Prop[Case]{
 		"a token re-signed with the SP's own key and algorithm with unchanged claims counts as legitimate; tokens only the key holder could make and the codec never issues (exp absent/extended, iat alone in the future, aud as one-element array, non-boolean marker) are not judged",
 		"assertion strings are XML-1.0 representable valid UTF-8 (an assertion is always parsed from XML)",
 		"an attribute without values is equivalent to an absent attribute",
+		"'this SP's session codec' is the CONFIGURED one: tokens under the library-default algorithm, or carrying the root URL / entity ID / ACS URL / the deployment's issuer where its configured audience belongs, are foreign; with audience and issuer both configured explicitly a second deployment at another URL is indistinguishable and not generated",
+		"a token is expired after the codec's MaxAge; if the cookie provider's MaxAge is shorter, instants between the two are not judged",
+		"every case may serve warm-up requests (another user's valid token, garbage, a tracking token, no cookie) on the same Middleware and handler value before the judged request and another user's token after it; those must see their own identity and must not change the judged verdict",
+		"a re-signed token whose nbf/iat/exp all differ is refused while now < nbf or now > exp; strictly inside it is not judged (only the key holder can make it)",
 	},
 }
 
